@@ -829,3 +829,121 @@ theorem serve_not_spent (r : R) (env : List Ans) (hs : r.st ≠ .spent) :
     | panic => simp
 
 end Reconnect
+
+namespace Reconnect
+open ConnScript
+
+/-! ### results do not depend on the `Pending` pattern -/
+
+/-- The script with every `Pending` answer removed. -/
+def strip (env : List Ans) : List Ans := env.filter (· ≠ .pending)
+
+theorem driveLoop_spent (r : R) (env : List Ans) (hs : r.st = .spent) :
+    driveLoop r env = (r, env, .panic) := by
+  cases env with
+  | nil => simp [driveLoop, loop, hs]
+  | cons a env => simp [driveLoop, hs]
+
+/-- In the `Connected` state the old value of `has_been_connected` is irrelevant (it is
+overwritten before anything else happens). -/
+theorem driveLoop_touch (r : R) (c : Nat) (env : List Ans) (hs : r.st = .connected c) :
+    driveLoop { r with hasBeen := true } env = driveLoop r env := by
+  cases env with
+  | nil => simp [driveLoop, loop, hs]
+  | cons a env =>
+    rw [driveLoop, driveLoop]
+    cases a <;> simp [step, hs]
+
+theorem driveLoop_strip (r : R) (env : List Ans) :
+    driveLoop r (strip env) =
+      ((driveLoop r env).1, strip (driveLoop r env).2.1, (driveLoop r env).2.2) := by
+  induction env generalizing r with
+  | nil =>
+    have : (loop r []).2.1 = [] := by unfold loop; cases r.st <;> rfl
+    simp only [strip, List.filter_nil, driveLoop]
+    rcases hl : loop r [] with ⟨a, b, c⟩
+    rw [hl] at this
+    simp only at this
+    subst this
+    rfl
+  | cons a env ih =>
+    by_cases hs : r.st = .spent
+    · simp [driveLoop_spent _ _ hs]
+    · cases a with
+      | pending =>
+        have hstrip : strip (.pending :: env) = strip env := by simp [strip]
+        rw [hstrip]
+        cases hst : r.st with
+        | spent => exact absurd hst hs
+        | idle => rw [driveLoop_pending_idle r env hst]; exact ih r
+        | connecting => rw [driveLoop_pending_connecting r env hst]; exact ih r
+        | connected c =>
+          rw [driveLoop_pending_connected r env c hst, ← ih, driveLoop_touch r c _ hst]
+      | ok =>
+        have hstrip : strip (.ok :: env) = .ok :: strip env := by simp [strip]
+        rw [hstrip, driveLoop, driveLoop]
+        simp only [hs, if_false]
+        rcases hstep : step r .ok with ⟨r', _ | p⟩
+        · exact ih r'
+        · have hp : p ≠ .pending := by
+            intro hp; subst hp
+            unfold step at hstep
+            repeat' split at hstep
+            all_goals simp_all
+          simp [hp]
+      | err e =>
+        have hstrip : strip (.err e :: env) = .err e :: strip env := by simp [strip]
+        rw [hstrip, driveLoop, driveLoop]
+        simp only [hs, if_false]
+        rcases hstep : step r (.err e) with ⟨r', _ | p⟩
+        · exact ih r'
+        · have hp : p ≠ .pending := by
+            intro hp; subst hp
+            unfold step at hstep
+            repeat' split at hstep
+            all_goals simp_all
+          simp [hp]
+
+theorem serve_strip (r : R) (env : List Ans) :
+    serve r (strip env) = ((serve r env).1, strip (serve r env).2.1, (serve r env).2.2) := by
+  unfold serve drive
+  by_cases he : r.error.isSome = true
+  · simp only [he, if_true]
+    rcases call r with ⟨r', o⟩
+    cases o <;> rfl
+  · have hn : r.error = none := by cases h : r.error <;> simp_all
+    simp only [hn, Option.isSome_none, Bool.false_eq_true, if_false]
+    rw [driveLoop_strip]
+    rcases driveLoop r env with ⟨r1, env1, p⟩
+    cases p with
+    | ready =>
+      simp only
+      rcases call r1 with ⟨r', o⟩
+      cases o <;> rfl
+    | failed e => rfl
+    | pending => rfl
+    | panic => rfl
+
+theorem session_strip (r : R) (env : List Ans) (n : Nat) :
+    (session r (strip env) n).1 = (session r env n).1 ∧
+    (session r (strip env) n).2.1 = (session r env n).2.1 := by
+  induction n generalizing r env with
+  | zero => simp [session]
+  | succ n ih =>
+    unfold session
+    rw [serve_strip]
+    rcases serve r env with ⟨r', env', res⟩
+    cases res with
+    | closed e => simp
+    | hang => simp
+    | panic => simp
+    | resp c =>
+      have := ih r' env'
+      simp only
+      exact ⟨by rw [this.1], this.2⟩
+    | err e =>
+      have := ih r' env'
+      simp only
+      exact ⟨by rw [this.1], this.2⟩
+
+end Reconnect
